@@ -6,11 +6,17 @@ VARIABLE s
 Kinds == {"ok", "fail", "noresult", "nooh", "noapps", "unsupapps", "silence", "eof"}
 Extras == {"dupok", "latefail", "latemalformed"}
 Seqs(S, n) == UNION {[1..k -> S] : k \in 0..n}
-Init == s \in {[budget |-> b, interval |-> 40, kind |-> k, at |-> a, extras |-> <<>>] :
+\* stall: milliseconds the transport takes to accept each CER (back-pressure); the spacing is
+\* measured between the ends of the writes.  redial: the same client / state machine has
+\* completed an earlier dial from another local address.
+Init == s \in {[budget |-> b, interval |-> 40, kind |-> k, at |-> a, extras |-> <<>>, stall |-> 0, redial |-> FALSE] :
                   b \in 0..MaxBudget, k \in Kinds, a \in 1..(MaxBudget + 1)}
+         \cup {[budget |-> b, interval |-> 40, kind |-> k, at |-> b + 1, extras |-> <<>>, stall |-> 25, redial |-> r] :
+                  b \in 1..MaxBudget, k \in {"ok", "silence", "fail"}, r \in BOOLEAN}
+         \cup {[budget |-> 0, interval |-> 40, kind |-> "ok", at |-> 1, extras |-> <<>>, stall |-> 0, redial |-> TRUE]}
 Next == /\ s.kind = "ok" /\ Answers(s) /\ Len(s.extras) < MaxExtras
         /\ \E x \in Extras : s' = [s EXCEPT !.extras = Append(@, x)]
-Canon == (s.kind = "silence" => s.at = 1) /\ s.at <= s.budget + 1
+Canon == (s.kind = "silence" => (s.at = 1 \/ s.stall > 0)) /\ s.at <= s.budget + 1
 \* R1: the expectation is well defined: a script either succeeds or names at least one admissible error
 WellDefined == ExpectOK(s) \/ ErrClasses(s) # {}
 Emit == ~Canon \/ PrintT(ToJson(s))
